@@ -30,6 +30,18 @@
 
 #include "vrun.h"
 
+// The babylon sources of this driver are compiled with -finstrument-functions (flow.build.json): the entry of
+// GraphDependency::check_established -- plain code between the decrement of _waiting_num and the evaluation of the
+// condition / the write of _established -- becomes a schedule point ("pt"), so that the scheduler can interleave
+// another thread's ready() / activate() of the same dependency exactly there.
+static void* g_check_established = nullptr;
+extern "C" {
+__attribute__((no_instrument_function)) void __cyg_profile_func_enter(void* fn, void*) {
+  if (fn == g_check_established && fn != nullptr && vsched::active() && vsched::self() >= 0) vsched::event("\"k\":\"pt\"", true);
+}
+__attribute__((no_instrument_function)) void __cyg_profile_func_exit(void*, void*) {}
+}
+
 namespace {
 
 using ::babylon::anyflow::Closure;
@@ -398,6 +410,7 @@ void scenario_flow(const vrun::Params& p) {
   std::atomic<int64_t> interner {0};
   vsched::name_loc(&interner, sizeof(interner), "intern");
 
+  g_check_established = (void*)(&GraphDependency::check_established);
   vrun::begin();
   // negative counter values are interned by the recorder: fix their codes (decoded by the normaliser)
   for (int64_t x = -2; x >= -6; x--) interner.store(x, std::memory_order_relaxed);
